@@ -219,6 +219,8 @@ class P:
                 if minprec > 0:
                     break
                 self.next()
+                if self.peek() == "]":
+                    lhs = ("range", lhs, None, False); continue
                 rhs = self.expr(1, nostruct)
                 lhs = ("range", lhs, rhs, op == "..=")
                 continue
@@ -257,7 +259,15 @@ class P:
             if v == "(":
                 self.next(); e = ("call", e, self.args())
             elif v == "[":
-                self.next(); i = self.expr(); self.eat("]"); e = ("index", e, i)
+                self.next()
+                if self.peek() in ("..", "..="):
+                    op = self.next(); hi = None if self.peek() == "]" else self.expr(1)
+                    i = ("range", None, hi, op == "..=")
+                else:
+                    i = self.expr()
+                    if i[0] != "range" and self.peek() == "..":
+                        self.next(); i = ("range", i, None, False)
+                self.eat("]"); e = ("index", e, i)
             elif v == ".":
                 self.next()
                 if self.kind() == "num":
@@ -311,7 +321,12 @@ class P:
                 e = None if self.peek() == ";" else self.expr()
                 self.accept(";")
                 stmts.append(("return", e)); continue
-            if self.peek() in ("while", "for", "loop"):
+            if self.peek() == "for":
+                self.next(); pat = self.pat(); self.eat("in")
+                it = self.expr(0, True)
+                body = self.block()
+                stmts.append(("for", pat, it, body)); continue
+            if self.peek() in ("while", "loop"):
                 raise TranslationError("loop (`%s`)" % self.peek())
             if self.peek() in ("if", "match", "unsafe", "{"):
                 # a block-like expression in statement position ends the statement
@@ -690,6 +705,10 @@ def pp(c, ind=2):
     raise AssertionError(k)
 
 
+def pp_opt_pair(c, iv):
+    return pp(c, 6)
+
+
 def paren(t):
     t = t.strip()
     if re.fullmatch(r"[A-Za-z_0-9']+|\(.*\)", t) and balanced_outer(t):
@@ -800,6 +819,23 @@ class Translator:
             return self.method(ctx, env, e, expected)
         if k == "call":
             return self.call(ctx, env, e, expected)
+        if k == "index" and e[2][0] == "range":
+            pre, a = self.expr(ctx, env, e[1])
+            if a.ty[0] != "arr":
+                raise TranslationError("slicing a non-array")
+            lo, hi = e[2][1], e[2][2]
+            if e[2][3]:
+                raise TranslationError("inclusive slice range")
+            plo = phi = []
+            tlo, thi = "0", "(Z.of_nat (length %s))" % a.term
+            if lo is not None:
+                plo, vlo = self.expr(ctx, env, lo, T_int("usize")); tlo = paren(vlo.term)
+            if hi is not None:
+                phi, vhi = self.expr(ctx, env, hi, T_int("usize")); thi = paren(vhi.term)
+            n = ctx.tmp("s")
+            pre = pre + plo + phi
+            pre.append(lambda body, n=n, a=a, tlo=tlo, thi=thi: ("bind", n, "slice %s %s %s" % (paren(a.term), tlo, thi), body))
+            return pre, V(n, ("arr", a.ty[1], None))
         if k == "index":
             pre, a = self.expr(ctx, env, e[1])
             p2, i = self.expr(ctx, env, e[2], T_int("usize")); pre += p2
@@ -1068,6 +1104,10 @@ class Translator:
             return pa, V("((%s <=? %s) && (%s %s %s))" % (lo.term, x.term, x.term, cmp_hi, hi.term), BOOL)
         pre, r = self.expr(ctx, env, recv, expected if name.startswith("wrapping_") else None)
         t = r.ty
+        if t[0] == "arr" and name == "len" and not args:
+            return pre, V("(Z.of_nat (length %s))" % r.term, T_int("usize"))
+        if t[0] == "arr" and name == "iter" and not args:
+            return pre, r
         if t[0] == "named" and "%s::%s" % (t[1], name) in self.funcs:
             return self.call(ctx, env, ("call", ("path", [t[1], name]), [recv] + list(args)), expected)
         if name == "as_little_endian" and t[0] == "int" and not t[2] and "as_little_endian_u%d" % t[1] in self.funcs and not args:
@@ -1262,6 +1302,8 @@ class Translator:
                 return wrap(pre, self.final(ctx, env, v))
             if s[0] == "assign":
                 return self.assign(ctx, env, s, rest)
+            if s[0] == "for":
+                return self.for_loop(ctx, env, s, rest)
             if s[0] == "expr":
                 e = s[1]
                 if e[0] == "macro" and e[1] == "assert":
@@ -1277,6 +1319,59 @@ class Translator:
                 return wrap(pre, rest(env))
             raise TranslationError("statement " + s[0])
         return go(0, env)
+
+    def for_loop(self, ctx, env, s, rest):
+        """`for x in list-expression { body }` (also `.iter().enumerate()`): a monadic fold over the list whose state is
+        the tuple of variables the body assigns; no break / continue / return inside"""
+        _, pat, it, body = s
+        if self.has_return(body):
+            raise TranslationError("return inside a loop")
+        for kw in ("break", "continue"):
+            if self.mentions(body, kw):
+                raise TranslationError("%s inside a loop" % kw)
+        enum = False
+        if it[0] == "method" and it[2] == "enumerate" and not it[3]:
+            enum = True; it = it[1]
+        pre, l = self.expr(ctx, env, it)
+        if l.ty[0] != "arr":
+            raise TranslationError("loop over a non-slice")
+        acc = set(); self.assigned_vars(body, acc)
+        vs = sorted(v for v in acc if v in env)
+        for v in vs:
+            if env[v] == ("uninit",):
+                raise TranslationError("loop assigns a variable that is not initialised before it")
+        env_b = dict(env)
+        if enum:
+            if pat[0] != "ptuple" or len(pat[1]) != 2 or pat[1][0][0] != "pvar" or pat[1][1][0] != "pvar":
+                raise TranslationError("enumerate pattern")
+            iv, xv = pat[1][0][1], pat[1][1][1]
+            env_b[iv] = T_int("usize"); env_b[xv] = l.ty[1]
+        else:
+            if pat[0] != "pvar":
+                raise TranslationError("loop pattern")
+            xv = pat[1]; env_b[xv] = l.ty[1]
+        state = [cname(v) for v in vs]
+        st_term = tuple_term(state) if state else "tt"
+        inner = self.block(ctx, env_b, body, lambda env2, v: ("ret", st_term))
+        inner = simp(inner)
+        st_pat = ("'" + "(" + ", ".join(state) + ")") if len(state) > 1 else (state[0] if state else "_")
+        if enum:
+            fn = "(fun '(%s, st_) %s => let %s := st_ in\n%s)" % (cname(iv), cname(xv), st_pat if len(state) != 1 else state[0], pp_opt_pair(inner, cname(iv)))
+            term = "foldM_enum %s %s %s" % (fn, paren(l.term), st_term)
+        else:
+            fn = "(fun st_ %s => let %s := st_ in\n%s)" % (cname(xv), st_pat if len(state) != 1 else state[0], pp(inner, 6))
+            term = "foldM %s %s %s" % (fn, paren(l.term), st_term)
+        code = ("bind", pat_of(state) if state else "_", term, rest(env))
+        return wrap(pre, code)
+
+    def mentions(self, node, word):
+        if isinstance(node, tuple):
+            if len(node) == 2 and node[0] == "path" and node[1] == [word]:
+                return True
+            return any(self.mentions(x, word) for x in node[1:])
+        if isinstance(node, list):
+            return any(self.mentions(x, word) for x in node)
+        return False
 
     def bind_pat(self, ctx, env, p, v, t, rest):
         if p[0] == "pvar":
@@ -1335,7 +1430,7 @@ class Translator:
             names = [f for f, _ in fs]
             n = names.index(tgt[2])
             if op != "=":
-                raise TranslationError("compound field assignment")
+                rhs = ("binop", op[:-1], tgt, rhs)
             pre, v = self.expr(ctx, env, rhs, fs[n][1])
             comps = [v.term if j == n else self.proj(cname(var), j, len(fs)) for j in range(len(fs))]
             return wrap(pre, ("let", cname(var), tuple_term(comps), rest(env)))
@@ -1596,6 +1691,10 @@ def translate_all(repo):
         for fn in ("as_little_endian", "before", "first_offset", "all_zero", "clear_high_bits"):
             tr.function("sonic-simd/src/bits.rs", fn, "bitmask_%s_%s" % (ty, fn), impl="BitMask for " + ty, self_ty=ty, subst=sub,
                         key="%s::%s" % (ty, fn) if fn != "as_little_endian" else "as_little_endian_" + ty)
+    # error positions and the portable whitespace classifier (loops over bytes)
+    tr.struct("src/reader.rs", "Position")
+    tr.function("src/reader.rs", "from_index", "position_from_index", impl="Position", self_ty="Position")
+    tr.function("src/util/arch/fallback.rs", "get_nonspace_bits", "get_nonspace_bits_fallback")
     # node metadata
     tr.function("src/value/node.rs", "pack_dom_node", "meta_pack_dom_node", impl="Meta", self_ty="Meta")
     tr.function("src/value/node.rs", "get_kind", "meta_get_kind", impl="Meta", self_ty="Meta", key="Meta::get_kind")
